@@ -6,6 +6,11 @@
 //!                                             DictRef, StringRef, ObjectPathRef, SignatureRef) / alternating owned and borrowing
 //!   MV|MVR|MVX <bo> <prefix-count> <variant>  a params::Variant pushed through the typed API (push_param(&params::Variant{sig, value}))
 //!   RV|RVR|RVX <bo> <prefix-count> <variant>  the same, then read back with get::<params::Variant>()
+//!   MPC|MPCR|MPCX <bo> <prefix-count> <value> wire::marshal::container::marshal_container_param on a container tree
+//!   MA <catalogue-type> <bo> <prefix-count> <value>   the free function message_builder::marshal_as_variant
+//!   GT <catalogue-type> <bo> <nfds> <sig hex> <hex>   get::<T>() on a body built from parts (any signature)
+//!   <op>@<n> | <op>@recv                       RT, RP.., RV.., BV, BA, BB, GT: the body that is read sits at buf_offset n /
+//!                                             went through marshal + unmarshal_next_message (wirelib::Place)
 //!   VR <bo> <offset> <sig> <hex>              validate_raw::validate_marshalled for every complete type of <sig> in turn
 //!   UP <bo> <offset> <nfds> <sig> <hex>       unmarshal_with_sig (dynamic decoder) for every complete type of <sig>
 //!   BV|BA|BB ...                              glue on a body built with from_parts: validate(), unmarshall_all(), unmarshal_body (see below)
@@ -23,16 +28,40 @@ use wire_param::*;
 
 fn eval(line: &str) -> String {
     let mut a = Args::new(line);
-    let op = a.next();
+    // "RT@112", "RP@recv": where the body that is READ lives (wirelib::Place); the model knows no offsets
+    let op = rbverif::wirelib::take_place(a.next());
     match op {
         "CAT" => rbverif::catalogue::CATALOGUE.join(" "),
-        "MT" | "RT" | "UT" => {
+        "MT" | "RT" | "UT" | "GT" | "MA" => {
             let ty = a.next();
             let out = rbverif::catalogue::dispatch(ty, op, &mut a);
             match out.strip_prefix("BODY ") {
                 Some(rest) => read_back_dynamic(rest),
                 None => out,
             }
+        }
+        "MPC" | "MPCR" | "MPCX" => {
+            // wire::marshal::container::marshal_container_param on the container of the tree (a public entry of the dynamic
+            // marshaller that does its own shape check), into a context whose buffer holds <prefix-count> bytes
+            let flavour = match op {
+                "MPCR" => Flavour::Ref,
+                "MPCX" => Flavour::MixedOwned,
+                _ => Flavour::Owned,
+            };
+            let byteorder = rbverif::wirelib::bo(&mut a);
+            let prefix = a.num();
+            let p = param_from_flavour(&mut a, flavour);
+            let mut ordered = Vec::new();
+            param_tok(&p, &mut ordered, false);
+            let c = match &p {
+                rustbus::params::Param::Container(c) => c,
+                _ => return "notacontainer".to_string(),
+            };
+            let mut buf: Vec<u8> = (0..prefix).map(|i| (i as u8).wrapping_mul(37).wrapping_add(1)).collect();
+            let mut fds = Vec::new();
+            let mut ctx = rustbus::wire::marshal::MarshalContext { buf: &mut buf, fds: &mut fds, byteorder };
+            let r = rustbus::wire::marshal::container::marshal_container_param(c, &mut ctx);
+            format!("{} sig=- buf={} nfds={} val={}", if r.is_ok() { "ok" } else { "err" }, hex(&buf), fds.len(), ordered.join(" "))
         }
         "MV" | "MVR" | "MVX" | "RV" | "RVR" | "RVX" => {
             // a params::Variant pushed through the TYPED API (impl Marshal for params::Variant): the value must be a variant.
@@ -61,6 +90,7 @@ fn eval(line: &str) -> String {
                 return "pusherr".to_string();
             }
             msg.body.push_param(0xA5u8).unwrap();
+            let placed = rbverif::wirelib::place(&mut msg);
             let valid = msg.body.validate().is_ok();
             let mut parser = msg.body.parser();
             for _ in 0..prefix {
@@ -84,7 +114,7 @@ fn eval(line: &str) -> String {
             };
             let mut orig = Vec::new();
             param_tok(&rustbus::params::Param::Container(rustbus::params::Container::Variant(variant)), &mut orig, true);
-            format!("{} validate={} {} left={} same={} val={}", res, valid, trailer, parser.sigs_left(), orig == out, out.join(" "))
+            format!("{} validate={} {} left={} same={} place={} val={}", res, valid, trailer, parser.sigs_left(), orig == out, placed, out.join(" "))
         }
         "MP" | "RP" | "MPR" | "RPR" | "MPX" | "RPX" => {
             // ..R: the tree is built from the borrowing variants (ArrayRef, StructRef, DictRef, StringRef, ..), ..X: alternating
@@ -109,6 +139,7 @@ fn eval(line: &str) -> String {
                 return "pusherr".to_string();
             }
             msg.body.push_param(0xA5u8).unwrap();
+            let placed = rbverif::wirelib::place(&mut msg);
             let valid = msg.body.validate().is_ok();
             let mut parser = msg.body.parser();
             for _ in 0..prefix {
@@ -133,7 +164,7 @@ fn eval(line: &str) -> String {
             };
             let mut orig = Vec::new();
             param_tok(&p, &mut orig, true);
-            format!("{} validate={} {} left={} same={} val={}", res, valid, trailer, parser.sigs_left(), orig == out, out.join(" "))
+            format!("{} validate={} {} left={} same={} place={} val={}", res, valid, trailer, parser.sigs_left(), orig == out, placed, out.join(" "))
         }
         "BV" | "BA" | "BB" => {
             // glue around the decoders, on a body built from arbitrary parts:
@@ -148,14 +179,25 @@ fn eval(line: &str) -> String {
             let bytes = unhex(a.next());
             let fds: Vec<UnixFd> = (0..nfds).map(|_| UnixFd::new(nix::unistd::dup(2).unwrap())).collect();
             rbverif::wirelib::set_fd_table(&fds);
+            // the placement of this line: n foreign bytes in front of the body (BB: the offset handed to unmarshal_body is added)
+            let front = match rbverif::wirelib::PLACE.with(|p| p.get()) {
+                rbverif::wirelib::Place::At(n) => n,
+                rbverif::wirelib::Place::Recv => 112,
+            };
+            let offset = offset + front;
+            let bytes = {
+                let mut b = vec![0xAAu8; front];
+                b.extend_from_slice(&bytes);
+                b
+            };
             let res = match op {
                 "BV" => {
-                    let body = MarshalledMessageBody::from_parts(bytes, 0, fds, sig, byteorder);
+                    let body = MarshalledMessageBody::from_parts(bytes, front, fds, sig, byteorder);
                     if body.validate().is_ok() { "ok".to_string() } else { "err".to_string() }
                 }
                 "BA" => {
                     let mut msg = rustbus::message_builder::MarshalledMessage::new();
-                    msg.body = MarshalledMessageBody::from_parts(bytes, 0, fds, sig, byteorder);
+                    msg.body = MarshalledMessageBody::from_parts(bytes, front, fds, sig, byteorder);
                     match msg.unmarshall_all() {
                         Ok(m) => {
                             let mut out = Vec::new();
@@ -251,7 +293,10 @@ fn read_back_dynamic(rest: &str) -> String {
         orig.push(a.next().to_string());
     }
     let fds: Vec<UnixFd> = (0..nfds).map(|_| UnixFd::new(nix::unistd::dup(2).unwrap())).collect();
-    let body = MarshalledMessageBody::from_parts(buf, 0, fds, sig, byteorder);
+    let mut msg = rustbus::message_builder::MarshalledMessage::new();
+    msg.body = MarshalledMessageBody::from_parts(buf, 0, fds, sig, byteorder);
+    let placed = rbverif::wirelib::place(&mut msg);
+    let body = &msg.body;
     let valid = body.validate().is_ok();
     let mut parser = body.parser();
     for _ in 0..prefix {
@@ -275,7 +320,7 @@ fn read_back_dynamic(rest: &str) -> String {
         Err(_) => "trailer=err",
     };
     // descriptors: the typed side prints handles (0 = live), the dynamic side the same
-    format!("{} validate={} {} left={} same={} val={}", res, valid, trailer, parser.sigs_left(), orig == out, out.join(" "))
+    format!("{} validate={} {} left={} same={} place={} val={}", res, valid, trailer, parser.sigs_left(), orig == out, placed, out.join(" "))
 }
 
 fn main() {
